@@ -1,5 +1,5 @@
 From C20 Require Import Spec Model.
 Require Extraction.
 Require Import ExtrOcamlBasic.
-Extraction "model.ml" blake2b_impl blake2b_rfc lblake2b lbase58_encode lbase58_decode stringer_hash stringer_hash_default
+Extraction "model.ml" blake2b_impl blake2b_rfc lblake2b lbase58_encode lbase58_decode stringer_hash stringer_hash_default lblake2b_default blake2b_stream blake2b_rfc_from
   base58_spec_encode base58_spec_decode compress_c rfc_F.
